@@ -428,3 +428,17 @@ Definition fuel_bound (n M : nat) : nat := 4 * (M + n * (M + 1)) + 3.
 
 Definition unify_fuel (s : store) (t1 t2 : ty) : nat :=
   fuel_bound (length s) (Nat.max (store_msize s) (Nat.max (size t1) (size t2))).
+
+(* a sequence of unifier calls on one shared store (what type inference does to the variable cells; what the harness
+   replays), every call with the fuel of the bound; an error of a call does not stop the sequence (errors are collected
+   by the type checker, inference goes on), None = some call ran out of fuel *)
+Fixpoint unify_seq (ops : list (bool * ty * ty)) (s : store) : option store :=
+  match ops with
+  | [] => Some s
+  | (a, t1, t2) :: r =>
+      match unify (unify_fuel s t1 t2) a s t1 t2 with
+      | UOk s' _ => unify_seq r s'
+      | UErr s' _ => unify_seq r s'
+      | UFuel => None
+      end
+  end.
